@@ -3,7 +3,7 @@
    are inlined.  nat, positive, N, Z stay extracted Coq datatypes (uint64 does
    not fit OCaml's int). No Extract Constant of our own. *)
 From Coq Require Import ExtrOcamlBasic.
-From RaftV Require Import Codec.Msgs Disk.LogOps Disk.StateFile.
+From RaftV Require Import Codec.Msgs Disk.LogOps Disk.StateFile Cluster.World.
 Extraction Language OCaml.
 Set Extraction KeepSingleton.
 Extraction "model.ml"
@@ -12,4 +12,6 @@ Extraction "model.ml"
   enc_is_resp dec_is_resp enc_rv_req dec_rv_req enc_is_req dec_is_req enc_ae_req dec_ae_req
   enc_conf dec_conf send_ae_req recv_ae_req
   replay run_log lstep crash_images recover init_log
-  read_state state_rec sstep recover_snap latest.
+  read_state state_rec sstep recover_snap latest
+  init_world macro step settle run get_node lease_valid recent_contact
+  h_append_entries h_request_vote h_install_snapshot.
